@@ -618,6 +618,32 @@ VMAP_PREFIX = {
 }
 
 
+def contract_shortcut(ck, lin, method, asg, leaf):
+    """An early return that replaces the generic code of a combinator method by the GFI contract's own identity:
+    generate(None, *args, **kwargs) == (simulate(*args, **kwargs), 0)                      [C02: weight 0 for a sub-call left unconstrained]
+    regenerate(tr, AllSel(), *args, **kwargs) == (simulate(*args, **kwargs), 0, choices(tr)) [C04: weight 0 when everything is selected]
+    It is accepted only on a path whose condition establishes the premise (the constraint *is* None; the selection *is an* AllSel instance —
+    `() in s` does not establish it at a combinator: it holds for every complement whose inner selection does not match ()), and only with
+    exactly this call's (*args, **kwargs)."""
+    it = items(leaf)
+    sim = ("call", ("attr", SELF, "simulate"), (("star", ARGS),), ((None, KW),))
+    if it is None or not it or lin.norm(it[0]) != sim:
+        return False
+
+    def zero(t):
+        try:
+            return lin.lin(t) == {}
+        except Exception:
+            return False
+    if method == "generate" and len(it) == 2 and zero(it[1]):
+        return any(none_test(c, ("param", "x")) is v for c, v in asg.items())
+    if method == "regenerate" and len(it) == 3 and zero(it[1]) and lin.norm(it[2]) in (CH(TR), lin.norm(CH(TR))):
+        for c, v in asg.items():
+            if v and is_call(c, name="builtins.isinstance") and len(c[2]) == 2 and c[2][0] == ("param", "s") and c[2][1][0] == "name" and c[2][1][1].endswith(".AllSel"):
+                return True
+    return False
+
+
 def find_lanes(t):
     return [x for x in subterms(t) if x[0] == "lanes"]
 
@@ -706,6 +732,8 @@ def vmap_rule(ctx, method, rule="ALG-Vmap"):
     for asg, leaf in spine_cases(s.ret):
         if method == "simulate":
             ck.eq("returns the vectorised trace", leaf, L0)
+            continue
+        if contract_shortcut(ck, lin, method, asg, leaf):
             continue
         it = items(leaf)
         n = {"generate": 2, "assess": 2, "update": 3, "regenerate": 3}[method]
@@ -867,6 +895,8 @@ def scan_rule(ctx, method, rule="ALG-Scan"):
         for asg, leaf in spine_cases(s.ret):
             if method == "simulate":
                 ck.eq("returns ScanTr(self, (args, kwargs), stacked traces, final carry, stacked outputs)", leaf, want_tr)
+                continue
+            if contract_shortcut(ck, lin, method, asg, leaf):
                 continue
             it = items(leaf)
             n = 2 if method == "generate" else 3
